@@ -199,7 +199,7 @@ class GlueMixin:
         if isinstance(fn, SFunc) and fn.target and not isinstance(fn, Op):
             callee = fn.target.split(".")[-1] if fn.name is None else fn.name
         text = "%s(%s)" % (callee, ", ".join(args))
-        self.add_event(st, ("call", callee, text))
+        self.add_event(st, ("call", callee, text, tuple(args)))
         if callee.split(".")[-1][:1].isupper():
             # a step object being constructed: a neutral local object (its constructor arguments do not make it part of
             # the left or of the right record)
@@ -332,6 +332,12 @@ class GlueMixin:
         cs = [e for e in self._events(st, ("call",)) if e[1].split(".")[-1] == name or e[1] == name]
         return k < len(cs) and leaf in cs[k][2]
 
+    def g_call_arg_mentions(self, args, st):
+        """the text of positional argument `pos` of the k-th call of `name` mentions `leaf`"""
+        name, k, pos, leaf = args
+        cs = [e for e in self._events(st, ("call",)) if e[1].split(".")[-1] == name or e[1] == name]
+        return k < len(cs) and len(cs[k]) > 3 and pos < len(cs[k][3]) and leaf in cs[k][3][pos]
+
     def g_called_before(self, args, st):
         a, b = args
         names = [e[1].split(".")[-1] for e in self._events(st, ("call",))]
@@ -352,4 +358,4 @@ class GlueMixin:
         return SList([(e[2] if e[0] == "call" else "%s = %s" % (e[1], e[2])) for e in self._events(st)])
 
 
-GLUE_SPEC = {"swap_closed", "no_right_effect", "right_enabled", "ncalls", "call_mentions", "called_before", "sets", "event_texts", "last_store", "branch", "stored_at"}
+GLUE_SPEC = {"call_arg_mentions", "swap_closed", "no_right_effect", "right_enabled", "ncalls", "call_mentions", "called_before", "sets", "event_texts", "last_store", "branch", "stored_at"}
